@@ -6,7 +6,7 @@ from ..e2e import HEADER, CASE_TYPE, CHECK, MODEL_VIEW, SHARD, CASE_TIMEOUT, obs
 
 ID = "C17"
 THEOREMS = ["C17_inv", "C17_token_pos", "C17_lines", "C17_lex_error", "C17_node_error_label_pass", "C17_node_error_emit",
-            "C17_prefix_line", "C17_prefix_col", "C17_prefix_text"]
+            "C17_prefix_line", "C17_prefix_col", "C17_prefix_text", "C17_file_info", "C17_file_info_not_before"]
 RULE = ("valid generated programs x every top-level line position x erroneous statement kind (undefined symbol in an "
         "operand, in .db/.dw/.dl, in *=; bad size suffix; bad index register; unterminated string with and without a "
         "following line; invalid character; .text without table), in the main file and in an .include'd file, with random "
@@ -16,8 +16,8 @@ PROVED_NOTE = ("proved: the scanner's line-tracking invariant; every token's lin
                "offset and lines[line] is that line's text; each lexical error is reported at the start of the offending "
                "token with its line quoted; a NodeError raised in a pass carries the file_info token of the failing node; the "
                "closed forms are prefix independent (line shifted by the number of preceding newlines, column and quoted "
-               "line unchanged). Correspondence-only: that every AST node's file_info is its statement's first token "
-               "(parser model, tied by PARSE) and the message formatting.")
+               "line unchanged). every statement's node carries as file_info a token of the statement itself at a "
+               "fixed offset (parser model). Correspondence-only: the message formatting.")
 MANIFEST = {
     "text": ("Coq theorems on the scanner model (positions of tokens and of every ScannerException site, for all texts) and "
              "on the pass model (site of a NodeError), plus prefix-independence of the closed forms; composed pipeline model "
